@@ -1,25 +1,7 @@
-//! scratch probe: CPU time of C15 families at several sizes
-use nfv::props::c15::family;
+//! scratch probe
 fn main() {
-    let args: Vec<String> = std::env::args().collect();
-    let name = &args[1];
-    for n in [2000usize, 4000, 8000, 16000, 32000, 65000] {
-        let Some((pre, b)) = family(name, n) else { return };
-        let mut best = f64::MAX;
-        for _ in 0..5 {
-            let mut p = netflow_parser::NetflowParser::default();
-            for c in &pre {
-                p.parse_bytes(c);
-            }
-            let t0 = std::time::Instant::now();
-            let r = p.parse_bytes(&b);
-            let dt = t0.elapsed().as_secs_f64();
-            let t1 = std::time::Instant::now();
-            drop(r);
-            let dd = t1.elapsed().as_secs_f64();
-            best = best.min(dt);
-            if n == 65000 { eprintln!("   parse {:.2} ms drop {:.2} ms", dt * 1e3, dd * 1e3); }
-        }
-        println!("{} n={} buf={} best={:.3} ms  per-unit={:.1} ns", name, n, b.len(), best * 1e3, best * 1e9 / n as f64);
+    for (a, b, c, d) in [(10u8, 1u8, 140u8, 77u8), (200, 5, 30, 9), (7, 9, 250, 250), (7, 13, 100, 3)] {
+        let d1 = nfv::props::c13::make_projected(false, vec![0, 2], false, false, vec![(a, b, c, d)], 12345);
+        println!("{:?}", d1.fields.iter().map(|f| (f.ie, f.len, f.ent)).collect::<Vec<_>>());
     }
 }
